@@ -172,14 +172,17 @@ SIGS = {
     "star": [(["v"], {}), (["v", "c"], {}), (["c", "v"], {}), (["v", "v"], {}), (["c", "c", "v"], {}), (["v", "c", "c"], {}),
              (["v", "v", "v"], {}),
              # among the elements of *rest a variable is written before a plain value
-             (["c", "v", "c"], {}), (["v", "v", "c"], {}), (["c", "v", "c", "v"], {})],
+             (["c", "v", "c"], {}), (["v", "v", "c"], {}), (["c", "v", "c", "v"], {}),
+             # more than ten elements in *rest (their positions have two digits)
+             (["v"] + ["c"] * 10 + ["v", "c"], {}), (["c", "c", "v"] + ["c"] * 9 + ["v"], {})],
     "posonly": [(["v"], {}), (["v", "c"], {}), (["c", "v"], {}), (["v"], {"p1": "c"}), (["c"], {"p1": "v"}), (["v"], {"p1": "v"})],
     "kwonly": [(["v"], {}), (["v"], {"p1": "c"}), (["c"], {"p1": "v"}), ([], {"p0": "v", "p1": "c"}), ([], {"p1": "v", "p0": "c"}),
                (["v"], {"p1": "v"})],
     "kwargs": [(["v"], {}), (["v"], {"k1": "c"}), (["c"], {"k1": "v"}), (["v"], {"k1": "v", "k2": "c"}), ([], {"k2": "v", "p0": "c"})],
     "mixed": [(["v", "c"], {}), (["c", "v"], {}), (["v", "c", "c"], {}), (["c", "c", "v"], {"k0": "c"}), (["v", "c", "c", "v"], {"zz": "c"}),
               (["c"], {"p1": "v"}), (["v"], {"p1": "c", "k0": "v"}), (["c", "c"], {"zz": "v"}),
-              (["c", "c", "v", "c"], {}), (["v", "c", "v", "c", "c"], {"k0": "v"})],
+              (["c", "c", "v", "c"], {}), (["v", "c", "v", "c", "c"], {"k0": "v"}),
+              (["c", "v"] + ["c"] * 11 + ["v"], {"zz": "c"})],
 }
 
 
